@@ -33,7 +33,9 @@ OptsPool == IF Pools = "full" THEN {<<t, c, FALSE>> : t \in BOOLEAN, c \in BOOLE
 VARIABLES case, pc
 vars == <<case, pc>>
 Init == /\ pc = "gen"
-        /\ \E a1 \in {A, B}, a2 \in {A, B, <<>>}, n1 \in 0..3, n2 \in 0..3, sel \in Sels, st \in StagePool, lm \in Limits, o \in OptsPool :
+        /\ \E a1 \in (IF Pools = "full" THEN {A, B} ELSE {A}), a2 \in (IF Pools = "full" THEN {A, B, <<>>} ELSE {B, <<>>}),
+              n1 \in (IF Pools = "full" THEN 0..3 ELSE {0, 2, 3}), n2 \in (IF Pools = "full" THEN 0..3 ELSE {0, 3}),
+              sel \in Sels, st \in StagePool, lm \in Limits, o \in OptsPool :
              case = [ctrs |-> <<Ctr(1, a1, n1), Ctr(2, a2, n2)>>, sel |-> sel, stages |-> st, start |-> Start, end |-> End, limit |-> lm, opts |-> o]
 Export == pc = "gen" /\ pc' = "done" /\ UNCHANGED case /\ PrintT(<<"CASE", ToJson([in |-> case @@ [kind |-> "cmd"]])>>)
 Next == Export
